@@ -287,6 +287,30 @@ def run_case(ctx, n, vkind, ins, base=(), tag=''):
             ctx.fail('history:reparse', 'a dictionary cell parsed differently after other dictionaries were serialised/parsed in the same process',
                      inp, g, pw)
             return
+    # two dictionaries in one cell: after the first was loaded (its reference consumed), peeking and loading give the SECOND one
+    if True:
+        if hist:
+            pc, pn, pw = hist[-1]
+        else:                                                   # replay of a single case: a fixed other dictionary goes first
+            h0 = HashMap(8).with_uint_values(8)
+            h0.set_int_key(1, 2)
+            pc, pn = h0.serialize(), 8
+            pw = show_dict(HashMap.parse(pc.begin_parse(), 8))
+        two = Builder().store_dict(pc).store_dict(cell).store_uint(5, 3).end_cell()
+        sl = two.begin_parse()
+        seq = [('load_dict#1', lambda: sl.load_dict(pn), pw), ('preload_dict#2', lambda: sl.preload_dict(n), want),
+               ('preload_dict#2 again', lambda: sl.preload_dict(n), want), ('load_dict#2', lambda: sl.load_dict(n), want)]
+        for name, f, w in seq:
+            got = call(f)
+            ctx.count('route:two-dicts')
+            if is_err(got) or show_dict(got) != w:
+                ctx.fail('roundtrip-content:two-dicts', f'{name} on a slice holding two dictionaries does not return that dictionary', inp,
+                         got if is_err(got) else show_dict(got), w)
+                return
+        if sl.remaining_bits != 3 or sl.remaining_refs != 0:
+            ctx.fail('roundtrip-content:two-dicts', 'loading two dictionaries did not consume exactly two bits and two references', inp,
+                     [sl.remaining_bits, sl.remaining_refs], [3, 0])
+            return
     ctx._c09_hist = (hist + [(cell, n, want)])[-3:]
     sd = Builder().store_dict(cell).end_cell()
     if sd.bits.to01() != '1' or len(sd.refs) != 1 or sd.refs[0].hash != cell.hash:
